@@ -434,6 +434,7 @@ def check_C03(ctx: Ctx) -> None:
             if ns_rows and not c["o"].ns:
                 ctx.fail("namespace row in a stream without namespace declarations", dict(request=c["req"]))
     _c03_version_cases(ctx)
+    _c03_frame_length_cases(ctx)
 
 
 def _c03_version_cases(ctx: Ctx) -> None:
@@ -464,6 +465,49 @@ def _c03_version_cases(ctx: Ctx) -> None:
         if verdict != "ok":
             ctx.fail(f"StreamParameters(version={ver}, namespace_declarations=True){' via replace' if via else ''}: the independent decoder rejects the stream: {verdict}",
                      dict(bytes=b.hex(), version=ver))
+
+
+def _c03_frame_length_cases(ctx: Ctx) -> None:
+    """Frames whose serialized size sits exactly on a varint boundary of the length prefix (127/128, 16383/16384)."""
+    from pyjelly.serialize.ioutils import write_delimited
+    lines, metas = [], []
+    for cls in "TQ":
+        for target in (126, 127, 128, 129, 16382, 16383, 16384, 16385, 16386):
+            o = Opts(fs=250, lt=0, gen=True, star=True, delim=True, pn=8, pp=4, pd=4)
+
+            def mk(pad):
+                t = (IRI("http://l/s"), IRI("http://l/p"), Literal("x" * pad))
+                return [Triple(*t)] if cls == "T" else [Quad(*t, DefaultGraph)]
+            _, b0 = impl.run_ser_frames(cls, o, mk(0), is_sink=False)
+            # one frame: prefix varint + payload; find the pad that makes the payload exactly `target` bytes
+            def payload_len(b):
+                n, shift, k = 0, 0, 0
+                while True:
+                    n |= (b[k] & 0x7F) << shift
+                    shift += 7
+                    k += 1
+                    if not b[k - 1] & 0x80:
+                        return n
+            pad = max(0, target - payload_len(b0))
+            for _ in range(6):
+                resp, b = impl.run_ser_frames(cls, o, mk(pad), is_sink=False)
+                d = target - payload_len(b)
+                if d == 0:
+                    break
+                pad = max(0, pad + d)
+            stmts = mk(pad)
+            ctx.case(("frame-length", cls, target), True)
+            ctx.dist[f"frame_payload_len:{payload_len(b)}"] += 1
+            lines.append(spec_line(b, True))
+            metas.append((cls, target, stmts, b, f"ser {cls} frames {o.token()} gen:{stmts_text(stmts)}", resp))
+    ctx.corr("SER", [m[4] for m in metas], [m[5] for m in metas])
+    for (cls, target, stmts, b, req, _), line in zip(metas, __import__("common").run_driver(lines)):
+        verdict, evs, _ = parse_spec_response(line)
+        want = " ".join("S" + stmt_text(x) for x in expected_events(stmts, cls))
+        if verdict != "ok" or evs != want:
+            ctx.fail(f"a frame of exactly {target} bytes is not readable by an independent decoder ({verdict})", dict(request=req[:300], nbytes=len(b)))
+        elif impl.run_par("flat", False, "seek", b) != want + " end":
+            ctx.fail(f"a frame of exactly {target} bytes does not round-trip", dict(request=req[:300], nbytes=len(b)))
 
 
 def _dedup_bindings(bindings):
@@ -1449,6 +1493,7 @@ def check_C11(ctx: Ctx) -> None:
                              f"(frame {j + 1}/{len(ends)}, ended {ended})",
                              dict(bytes=b.hex(), limit=lim, got=got[:500], want=want[:500]),
                              known="C11-double-buffer" if kind == "buffered" else None)
+    _c11_rdflib_stall(ctx, r)
 
 
 # ---------------------------------------------------------------------------------------------
@@ -1486,6 +1531,44 @@ def _c12_bytes(work) -> list[bytes]:
         data, is_sink = _c12_data(cls, o, stmts)
         out.append(impl.run_ser_frames(cls, o, data, is_sink=is_sink)[1] or b"")
     return out
+
+
+def _c11_rdflib_stall(ctx: Ctx, r) -> None:
+    """Parse-side liveness through the rdflib integration (flat parser, TRIPLES / QUADS / GRAPHS streams)."""
+    import rimpl
+    from pyjelly.integrations.rdflib.parse import parse_jelly_flat as rflat
+
+    for i in range(ctx.n(60, 600)):
+        g = gen.G(r, star=False, generalized=False, case_langs=False)
+        g.bnode = lambda: BlankNode(r.choice(["b0", "b1", "n1"]))
+        s = None
+        while s is None or not s["delimited"]:
+            s = refenc.build_valid_stream(r, g, n_stmts=r.randint(2, 8), physical=r.choice([1, 2, 3]))
+        b = s["bytes"]
+        ends, pos = [], 0
+        for f in s["frames"]:
+            pos += len(refenc.frames_to_bytes([f], True))
+            ends.append(pos)
+        ctx.case(("rdflib-stall", b.hex()), True)
+        for j, lim in enumerate(ends):
+            if lim < 3:
+                continue
+            want = rimpl.run_par_flat(False, "seek", b[:lim]).rsplit(" ", 1)[0]
+            src = StallSource(b, lim, chunk=r.choice([3, 7, 1 << 16]))
+            evs = []
+            try:
+                for ev in rflat(src):
+                    evs.append(ev)
+                ended = "end"
+            except Stall:
+                ended = "stall"
+            except Exception as e:  # noqa: BLE001
+                ended = "!" + type(e).__name__
+            got = rimpl.rdflib_events_text(evs)
+            ctx.dist["stall:rdflib-raw"] += 1
+            if got != want:
+                ctx.fail(f"rdflib flat parser: statements of delivered frames not yielded before more bytes were required "
+                         f"(frame {j + 1}/{len(ends)}, ended {ended})", dict(bytes=b.hex(), limit=lim, got=got[:400], want=want[:400]))
 
 
 def check_C12(ctx: Ctx) -> None:
